@@ -351,6 +351,10 @@ func (fs *FS) Step(o fsx.Op, h, h2 []byte, r *fsx.Reply) (implFail bool, err *Mi
 			return false, mm(k+"-refused", "status %d", r.Status)
 		}
 		want := obj.ReadAt(o.Off, o.Cnt)
+		if fs.AllowImplFail && len(r.Data) < len(want) && !r.Eof && bytes.Equal(r.Data, want[:len(r.Data)]) {
+			// short read: materialising a hole needed a block and there was none (implementation-only failure)
+			return true, nil
+		}
 		if !bytes.Equal(r.Data, want) {
 			return false, mm(k+"-data", "%s", diffBytes(r.Data, want, o.Off))
 		}
@@ -395,7 +399,7 @@ func (fs *FS) Step(o fsx.Op, h, h2 []byte, r *fsx.Reply) (implFail bool, err *Mi
 		if n == 0 && lim > 0 {
 			return false, mm(k+"-count", "successful write of 0 of %d bytes", lim)
 		}
-		if n < lim && uint64(len(data)) == o.Cnt {
+		if n < lim && uint64(len(data)) == o.Cnt && !fs.AllowImplFail {
 			return false, mm(k+"-short", "wrote %d of %d bytes (truncated write)", n, lim)
 		}
 		if n > 0 {
